@@ -248,8 +248,12 @@ def run_setting(ctx, res, drv, adj, kw, seed, pending, default=False, scramble=F
         return
     if cap is not None:
         # counted as observed only when the loops were also handed to the model (check_assembly gives up on maps it cannot encode)
-        if check_assembly(res, inp, n, out, cap, pending):
-            stats["observed"] += 1
+        try:
+            if check_assembly(res, inp, n, out, cap, pending):
+                stats["observed"] += 1
+        except Exception as e:  # noqa: BLE001 — the observed loop state / the entries are not shaped as solve() builds them today
+            res.exact_break(f"solve:assembly-unreadable:{err_class(e)}", input=inp, impl=f"{type(e).__name__}: {e}"[:200],
+                            model="entries (circuit, {'g', 'map', ...}) built from the observed isomorphs and LC graphs")
     else:
         res.count("errors", "assembly-not-observed")
     graphs = []
